@@ -62,21 +62,30 @@ def admin_payload(variant):
 # ---------------------------------------------------------------------------
 # bridging to the implementation
 
-def impl_build(bundle):
-    '''Values -> implementation objects (the way the repository builds bundles).'''
+def impl_build(bundle, unsaid=False):
+    '''Values -> implementation objects (the way the repository builds bundles).
+    unsaid: zero flags and CRC type zero are not passed at all (they are the defaults of the fields).'''
     from bp.encoding import Bundle, PrimaryBlock, CanonicalBlock, Timestamp
     pri = bundle['primary']
     kwargs = dict(bundle_flags=pri['flags'], crc_type=pri['crc_type'], destination=pri['dest'], source=pri['src'],
                   report_to=pri['report_to'], create_ts=Timestamp(dtntime=pri['ts'][0], seqno=pri['ts'][1]),
                   lifetime=pri['lifetime'])
+    if unsaid:
+        for key in ('bundle_flags', 'crc_type'):
+            if kwargs[key] == 0:
+                del kwargs[key]
     if 'version' in pri:
         kwargs['bp_version'] = pri['version']
     if pri['flags'] & B.FLAG_IS_FRAGMENT:
         kwargs.update(fragment_offset=pri['frag_offset'], total_app_data_len=pri['total_adu'])
     blocks = []
     for blk in bundle['blocks']:
-        blocks.append(CanonicalBlock(type_code=blk['type'], block_num=blk['num'], block_flags=blk['flags'],
-                                     crc_type=blk['crc_type'], btsd=blk['data']))
+        bkw = dict(type_code=blk['type'], block_num=blk['num'], block_flags=blk['flags'], crc_type=blk['crc_type'], btsd=blk['data'])
+        if unsaid:
+            for key in ('block_flags', 'crc_type'):
+                if bkw[key] == 0:
+                    del bkw[key]
+        blocks.append(CanonicalBlock(**bkw))
     obj = Bundle(primary=PrimaryBlock(**kwargs), blocks=blocks)
     return obj
 
@@ -129,6 +138,16 @@ def check_bundle(bundle, label, check_parsed=True):
     except Exception as err:
         return bad('implementation-cannot-encode', '%s: %s' % (type(err).__name__, err)), None
     case['impl_octets'] = enc.hex()
+    if bundle['primary']['crc_type'] == 0 or bundle['primary']['flags'] == 0 or any(b['crc_type'] == 0 or b['flags'] == 0 for b in bundle['blocks']):
+        # the same bundle built without saying what is zero anyway: the same octets
+        try:
+            obj2 = impl_build(bundle, unsaid=True)
+            obj2.update_all_crc()
+            enc2 = bytes(obj2)
+        except Exception as err:
+            return bad('implementation-cannot-encode', 'defaults left unsaid: %s: %s' % (type(err).__name__, err)), None
+        if enc2 != enc:
+            return bad('encoding-depends-on-saying-the-defaults', 'with zero flags / CRC type 0 not passed: %s, passed: %s' % (enc2.hex()[:160], enc.hex()[:160])), None
     # (1) independent decoder
     try:
         dec = B.decode(enc)
